@@ -3,7 +3,7 @@
    Standard extraction libraries only; no hand-written Extract Constant. *)
 From Coq Require Import Extraction ExtrOcamlBasic ExtrOCamlFloats ExtrOCamlInt63.
 From Coq Require Import ZArith List Floats.
-From SV Require Import Base.Num Base.Outcome Model.Poly Model.Definite Extract.Keep.
+From SV Require Import Base.Num Base.Outcome Model.Poly Model.PolyFast Model.Definite Extract.Keep.
 Extraction Language OCaml.
 
 Definition f_s_eval_univariate := @s_eval_univariate float FNum.
@@ -13,6 +13,13 @@ Definition f_s_derivate_multivariate := @s_derivate_multivariate float FNum.
 Definition f_s_integral_univariate := @s_integral_univariate float FNum.
 Definition f_s_integral_multivariate := @s_integral_multivariate float FNum.
 Definition f_s_analytical_integral := @s_analytical_integral float FNum.
+
+(* same functions with a binary power index (Proofs/PolyLemmasFast.v: fast_model_eq); the drivers
+   use them for coefficient vectors longer than 2000, where Z.of_nat on the unary index is quadratic *)
+Definition f_s_derivate_univariate_fast := @s_derivate_univariate_fast float FNum.
+Definition f_s_derivate_multivariate_fast := @s_derivate_multivariate_fast float FNum.
+Definition f_s_integral_univariate_fast := @s_integral_univariate_fast float FNum.
+Definition f_s_integral_multivariate_fast := @s_integral_multivariate_fast float FNum.
 
 Definition f_i_eval_univariate := @i_eval_univariate float FNum.
 Definition f_i_eval_multivariate := @i_eval_multivariate float FNum.
@@ -27,4 +34,5 @@ Extraction "model.ml"
   f_s_eval_univariate f_s_eval_multivariate f_s_derivate_univariate f_s_derivate_multivariate
   f_s_integral_univariate f_s_integral_multivariate f_s_analytical_integral
   f_i_eval_univariate f_i_eval_multivariate f_i_derivate_univariate f_i_derivate_multivariate
-  f_i_integral_univariate f_i_integral_multivariate f_i_analytical_integral.
+  f_i_integral_univariate f_i_integral_multivariate f_i_analytical_integral
+  f_s_derivate_univariate_fast f_s_derivate_multivariate_fast f_s_integral_univariate_fast f_s_integral_multivariate_fast.
